@@ -191,21 +191,17 @@ func prop(c Case) error {
 	if err := model.WellFormed(t); err != nil {
 		return fmt.Errorf("built geometry not well formed: %v", err)
 	}
+	held := model.Leaves(t) // the caller's alias of the coordinates, taken before any query
 	if err := measure(g, t); err != nil {
 		return err
 	}
 	// the measures are those of the coordinates as they are now: x and y of every
-	// coordinate are exchanged in place (rings stay closed, the area changes sign)
-	// and the same object is measured again
-	if stride := t.Stride(); stride >= 2 {
-		fc := t.FlatCoords()
-		for i := 0; i+1 < len(fc); i += stride {
-			fc[i], fc[i+1] = fc[i+1], fc[i]
-		}
-		g2, err := model.FromGeom(t)
-		if err != nil {
-			return fmt.Errorf("harness: geometry ill formed after exchanging x and y: %v", err)
-		}
+	// coordinate are exchanged in place through the alias (rings stay closed, the area
+	// changes sign) and the same object is measured again
+	if model.SwapXY(held) {
+		// the expectation comes from the model, not from the object: reading the object
+		// back (FlatCoords) would itself be a call that may refresh something inside it
+		g2 := g.SwappedXY()
 		if err := measure(g2, t); err != nil {
 			return fmt.Errorf("after x and y were exchanged in place: %v", err)
 		}
